@@ -516,16 +516,24 @@ func c04Inputs(c *fw.Ctx, i int) []hostileInput {
 		for k := 0; k < levels && len(body) < (16<<20)-64; k++ {
 			body = append(body, unit...)
 		}
-		for _, st := range []int{3, 5} {
-			s := newScript().prefix(st, name)
-			s.msg(2, 1, 0, 0, []byte{0, 1, 0, 0}) // chunk size 65536 to keep the framing overhead low
-			s.w.ChunkSize = 65536
-			if st == 3 {
-				s.msg(3, 20, 0, 0, append(ref.AmfEncodeAll(ref.AmfStr("connect"), ref.AmfNum(1)), body...))
-			} else {
-				s.msg(5, 18, 1, 0, append(ref.AmfEncodeAll(ref.AmfStr("@setDataFrame"), ref.AmfStr("onMetaData")), body...))
+		// bare (the container chain is the command object itself) and as a property value inside the
+		// command object / metadata object (where the parser accepts any value type)
+		for _, wrap := range [][]byte{nil, {0x03, 0x00, 0x01, 'a'}, {0x08, 0, 0, 0, 1, 0x00, 0x01, 'a'}} {
+			wb := append(append([]byte(nil), wrap...), body...)
+			if len(wb) > (16<<20)-64 {
+				wb = wb[:(16<<20)-64]
 			}
-			add(fmt.Sprintf("amf/deep-nesting/levels=%d", levels), st, s)
+			for _, st := range []int{3, 5} {
+				s := newScript().prefix(st, name)
+				s.msg(2, 1, 0, 0, []byte{0, 1, 0, 0}) // chunk size 65536 to keep the framing overhead low
+				s.w.ChunkSize = 65536
+				if st == 3 {
+					s.msg(3, 20, 0, 0, append(ref.AmfEncodeAll(ref.AmfStr("connect"), ref.AmfNum(1)), wb...))
+				} else {
+					s.msg(5, 18, 1, 0, append(ref.AmfEncodeAll(ref.AmfStr("@setDataFrame"), ref.AmfStr("onMetaData")), wb...))
+				}
+				add(fmt.Sprintf("amf/deep-nesting/levels=%d/wrapped=%v", levels, wrap != nil), st, s)
+			}
 		}
 		// the three inputs named with the property
 		s := newScript().prefix(4, name)
